@@ -186,7 +186,7 @@ Fixpoint divRecStep (fuel : nat) (thrD thrK junk : Z) (depth : nat)
                     (length un) m z un temps with
             | None => None
             | Some (z, un, temps) =>
-                let s := Bk in
+                let s := (Bk - 1)%nat in
                 match divRecStep f thrD thrK junk (S depth) temps (repeat 0 qlen)
                         (skipn s un) (skipn s vn) with
                 | None => None
